@@ -98,10 +98,19 @@ fn run_case(rec: &mut Rec, desc: &Value) {
         // polylines: also translated by moving the vertices
         let is_poly = d["kind"] == "prim" && d["shape"]["k"] == "polyline";
         let map2 = if is_poly { observe(&translate_desc::<C>(d, by, 2)).map } else { json!([]) };
-        (o0, o1, tr, trm, is_poly, map2)
+        // styled primitives: the STYLED object moved with Styled::translate / translate_mut
+        stage("draw");
+        let map3 = if d["kind"] == "prim" {
+            let mut t = MapTarget::<C>::new();
+            Shape::from_desc(&d["shape"]).draw_styled_translated(&style_from::<C>(&d["style"]), by, (o0.npx % 2) as u32, &mut t).unwrap();
+            cruns_of(&t.map)
+        } else {
+            o1.map.clone()
+        };
+        (o0, o1, tr, trm, is_poly, map2, map3)
     });
     match r {
-        Ok((o0, o1, tr, trm, is_poly, map2)) => {
+        Ok((o0, o1, tr, trm, is_poly, map2, map3)) => {
             if o0.npx > 0 {
                 rec.nontrivial();
             }
@@ -109,7 +118,7 @@ fn run_case(rec: &mut Rec, desc: &Value) {
                 "pair",
                 json!({"by": desc["by"], "map0": o0.map, "map1": o1.map, "box0": o0.bbox, "box1": o1.bbox, "next0": o0.next, "next1": o1.next,
                     "pts0": o0.pts, "pts1": o1.pts, "cont0": o0.cont, "cont1": o1.cont, "tr": tr, "trm": trm,
-                    "poly": is_poly as i32, "map2": map2}),
+                    "poly": is_poly as i32, "map2": map2, "map3": map3}),
             );
         }
         Err(p) => {
